@@ -501,3 +501,38 @@ Proof.
   - intros ->. reflexivity.
   - intros Hk He. rewrite He. destruct (w_kind w); try reflexivity. congruence.
 Qed.
+
+(* the header precondition, explicitly: SignTransaction succeeds only on a
+   transaction whose InnerHash field is the hash of its body, and the result
+   carries that same hash; any other InnerHash (null, of another transaction,
+   corrupted) is refused before anything is signed *)
+Lemma sign_tx_inner_ok (sign : Z -> Z -> Z) (addr_of : Z -> Z) (msg_of : Z -> Z -> Z) w t idxs owners t' :
+  sign_tx sign addr_of msg_of w t idxs owners = Val (inr t') ->
+  s_inner t = s_inner_actual t /\ s_inner t' = s_inner_actual t /\ s_inner_actual t' = s_inner_actual t.
+Proof.
+  unfold sign_tx. intros H.
+  assert (Hk : w_kind w <> KXPub) by (intros Hc; rewrite Hc in H; discriminate).
+  destruct (w_kind w); try congruence;
+  (destruct (w_encrypted w); [discriminate|];
+   destruct (negb (s_inner_actual t =? s_inner t)) eqn:Ei; [discriminate|];
+   destruct (len (s_sigs t) =? 0); [discriminate|];
+   destruct (is_fully_signed (s_sigs t)); [discriminate|];
+   destruct (len (s_ins t) =? 0); [discriminate|];
+   destruct (negb (len owners =? len (s_ins t))); [discriminate|];
+   destruct (validate_idx idxs (len owners)); [discriminate|]; cbv zeta in H;
+   apply bindR_ok in H; destruct H as (am & _ & H);
+   destruct (negb (len (scan_entries addr_of (w_entries w) am []) =? len am)); [discriminate|];
+   apply bindR_ok in H; destruct H as (sigs' & _ & H);
+   destruct ((len idxs =? 0) || (len idxs =? len (filter (fun s => s =? 0) (s_sigs t))));
+   [destruct (negb (is_fully_signed sigs')); [discriminate|]|destruct (is_fully_signed sigs'); [discriminate|]];
+   injection H as <-; cbn [s_inner s_inner_actual]; repeat split; lia).
+Qed.
+
+Lemma sign_tx_bad_inner (sign : Z -> Z -> Z) (addr_of : Z -> Z) (msg_of : Z -> Z -> Z) w t idxs owners :
+  w_kind w <> KXPub -> w_encrypted w = false -> s_inner t <> s_inner_actual t ->
+  sign_tx sign addr_of msg_of w t idxs owners = Val (inl ESInner).
+Proof.
+  intros Hk He Hi. unfold sign_tx. rewrite He.
+  replace (s_inner_actual t =? s_inner t) with false by lia. cbn [negb].
+  destruct (w_kind w); try reflexivity. congruence.
+Qed.
